@@ -8,6 +8,7 @@ import RoModel.Drivers.Op
 import RoModel.Drivers.Chain
 import RoModel.Drivers.Cancel
 import RoModel.Drivers.NilObs
+import RoModel.Drivers.Precision
 import RoModel.Drivers.Overlap
 import RoModel.Drivers.Timed
 import RoModel.Drivers.Plugin
@@ -41,6 +42,7 @@ def handlers : List (String × (Case → String)) := [
   ("subjoverlap", Drivers.Overlap.runSubj),
   ("leak", Drivers.Cancel.runLeak),
   ("nilobs", Drivers.NilObs.run),
+  ("precision", Drivers.Precision.run),
   ("nextret", Drivers.Cancel.runNextRet),
   ("ctxpair", Drivers.Cancel.runCtxPair),
   ("lateuse", Drivers.Cancel.runLateUse),
